@@ -543,3 +543,8 @@ def check(rep):
     from .C09 import rule_builtins
 
     rule_builtins(rep)
+    from .C06 import rule_table
+
+    # greedy is implemented as associativity, and the EMPTY alternative of x? / x* must count as an
+    # empty production exactly like a hand-written one: both are rows of the S/R resolution table
+    rule_table(rep)
